@@ -17,7 +17,8 @@ RULE = ("Prior configurations of the C01 grammar assembled through JokerPrior.de
         "- [sum of declared prior log-densities + ln N(y | model, sigma^2+s^2)] is one constant over the points; the "
         "ln_likelihood deterministic == that Gaussian term and ln_prior == logp - ln_likelihood; mcmc_init == the chosen "
         "sample (itself, or the median-period member) in the prior's units. Non-trivial: a configuration whose prior "
-        "units differ from (day, data unit), or with offsets, poly_trend>=2 or sampled jitter.")
+        "units differ from (day, data unit), or with offsets, poly_trend>=2 or sampled jitter."
+        " Also: dict / tuple data, explicit reference epochs on the UTC scale, priors with the eccentricity held constant (0 or 0.3); RV tolerance 1e-8 K except within 1e-3 rad of the pymc Kepler solver's weak spot.")
 SHARDS = {"quick": 4, "thorough": 16}
 BUDGET = {"quick": 85, "thorough": 800}
 
